@@ -434,18 +434,19 @@ class PythonExecutor:
                 context.table.rows[i] = a + b
 
             width = len(context.columns)
-            context.add_columns(*operand_table.columns)
+            columns = context.columns + operand_table.columns
+            rows = context.table.rows
 
-            operand_table = Table(
-                context.columns,
-                context.table.rows,
-                range(width, width + len(operand_table.columns)),
-            )
-
+            # The operands are appended to the end of the joined row and only read through the
+            # unnamed table; the joined tables keep their own column ranges (widening them would
+            # make a table see the same-named column of the table joined after it).
             context = self.context(
                 {
-                    None: operand_table,
-                    **context.tables,
+                    None: Table(columns, rows, range(width, width + len(operand_table.columns))),
+                    **{
+                        name: Table(columns, rows, table.column_range)
+                        for name, table in context.tables.items()
+                    },
                 }
             )
 
